@@ -85,6 +85,15 @@ Theorem C18_accepted_is_valid : forall is_code files fuel seen n p l,
 Proof. exact parse_file_ok_rejects. Qed.
 Print Assumptions C18_accepted_is_valid.
 
+(* disable_all: a section yields an explicit `false` for an error code exactly when its
+   (last) disable_all is true and the section does not itself set the code to true *)
+Theorem C18_disable_all_semantics : forall (es : list (entry unit)) mp p en dis i,
+  In i (direct true es mp p en dis) <->
+    (exists v, In v (settings es) /\ i = mk_inst v mp false p) \/
+    (final_disable es dis = true /\ (en || sets_true es) = false /\ i = mk_inst 0%Z mp false p).
+Proof. exact (@direct_disable_all unit). Qed.
+Print Assumptions C18_disable_all_semantics.
+
 Example C18_nonvacuous :
   effective false ex_files [] 0 [1%N; 2%N; 3%N] = Some (Some 9%Z) /\
   effective false ex_files [] 0 [1%N; 4%N] = Some (Some 8%Z) /\
